@@ -24,8 +24,8 @@ THOROUGH = {
                                                      modes=("+", "-", "="), silents="{FALSE, TRUE}"))],
     "simulate": [("2mbox", dict(mbox=("inbox", "b"), maxid=6, maxpend=8, sets="SetsMedium", acts=ALL,
                                  flags='{{"Deleted"}, {"Seen"}, {"Flagged", "k1"}, {"Recent", "Seen"}, {"Answered", "Draft"}}',
-                                 modes=("+", "-", "="), silents="{FALSE, TRUE}"), 1200, 32)],
-    "random": 1500,
+                                 modes=("+", "-", "="), silents="{FALSE, TRUE}"), 800, 32)],
+    "random": 800,
     "gen": dict(length=50, weights={"store": 24, "fetch": 10, "fetchbody": 8, "append": 8, "copy": 5, "search": 4,
                                     "noop": 10, "idle": 4, "done": 4, "examine": 3}),
     "tlc_timeout": 3000,
